@@ -38,6 +38,7 @@ theorem inst_iff_den : ∀ (n : Nat) (t : Ty) (v : Val), t.w ≤ n → Ty.WF cfg
       exact enumInst_iff cfg vs ci _ hwf
     | pattern rs => unfold inst Den; cases v <;> simp [rxAny_iff, List.isEmpty_iff]
     | regexp src => unfold inst Den; cases v <;> simp
+    | runtime rt nm pt => unfold inst Den; simp
     | coll r => unfold inst Den; cases v <;> simp [Rng.contains_iff]
     | array e r =>
       unfold Ty.WF at hwf; unfold Ty.Ref at href
